@@ -26,9 +26,10 @@ def writer_table(repo: Repo) -> Dict[str, dict]:
     """{'reactant': {'dir': 'in', 'stoich_key': 'stoich'}, 'product': {'dir': 'out', ...}}
     'in' = arc species -> reaction (an in-arc of the reaction node)."""
     fi = repo.func(CV, "hypergraph_to_bipartite")
-    ctor = [n for n in walk_local(fi.node) if isinstance(n, ast.Assign) and norm(n.targets[0]) == "G"]
-    if not ctor or dotted(ctor[0].value.func) not in ("nx.DiGraph", "DiGraph"):
-        raise AnalysisError("hypergraph_to_bipartite no longer builds an nx.DiGraph named G")
+    ctor = [n for n in walk_local(fi.node) if isinstance(n, ast.Assign) and isinstance(n.value, ast.Call) and dotted(n.value.func) in ("nx.DiGraph", "DiGraph")]
+    rets = [n for n in walk_local(fi.node) if isinstance(n, ast.Return) and n.value is not None]
+    if len(ctor) != 1 or not rets or any(norm(r.value) != norm(ctor[0].targets[0]) for r in rets):
+        raise AnalysisError("hypergraph_to_bipartite no longer builds and returns one nx.DiGraph")
     table: Dict[str, dict] = {}
     for lp in [n for n in walk_local(fi.node) if isinstance(n, ast.For)]:
         it = norm(lp.iter)
